@@ -32,6 +32,55 @@ theorem Rope.lenOKB_iff : ∀ r : Rope, r.lenOKB = true ↔ r.LenOK
   | .concat l r _ => by simp [Rope.lenOKB, Rope.LenOK, Rope.lenOKB_iff l, Rope.lenOKB_iff r, and_assoc]
   | .tiled u _ => by simp [Rope.lenOKB, Rope.LenOK, Rope.lenOKB_iff u]
 
+/-! The smart constructors preserve the invariant and have the expected bytes: every rope the
+builtins can allocate (`binary_concat`, `binary_slice`, `binary_repeat`, `binary_new`, literals)
+satisfies `LenOK`, so `Ctx.Coherent`'s heap clause is an invariant of the allocation API. -/
+
+theorem Rope.mkConcat_ok (l r : Rope) (hl : l.LenOK) (hr : r.LenOK) :
+    (Rope.mkConcat l r).LenOK ∧ (Rope.mkConcat l r).toVec = l.toVec ++ r.toVec :=
+  ⟨⟨hl, hr, rfl⟩, rfl⟩
+
+theorem Rope.mkSlice_ok (p : Rope) (off l : Nat) (hp : p.LenOK) (r : Rope)
+    (h : Rope.mkSlice p off l = some r) :
+    r.LenOK ∧ r.toVec = (p.toVec.drop off).take l := by
+  unfold Rope.mkSlice at h
+  have hlen := Rope.len_eq p hp
+  split at h
+  · cases h
+  · rename_i hb
+    split at h
+    · cases h; rename_i hz; subst hz; simp [Rope.LenOK, Rope.toVec]
+    · split at h
+      · cases h; rename_i hf
+        refine ⟨hp, ?_⟩
+        rw [hf.1, hf.2, hlen]; simp
+      · cases h
+        refine ⟨⟨hp, by omega⟩, rfl⟩
+
+theorem Rope.mkTiled_ok (u : Rope) (c : Nat) (hu : u.LenOK)
+    (hsize : (Rope.mkTiled u c).len ≤ maxBinarySize) :
+    (Rope.mkTiled u c).LenOK ∧ (Rope.mkTiled u c).toVec = (List.replicate c u.toVec).flatten := by
+  have hlen := Rope.len_eq u hu
+  unfold Rope.mkTiled at hsize ⊢
+  split
+  · rename_i h
+    refine ⟨trivial, ?_⟩
+    rcases h with rfl | h0
+    · simp [Rope.toVec]
+    · have : u.toVec = [] := List.eq_nil_of_length_eq_zero (by omega)
+      simp [Rope.toVec, this]
+  · split
+    · rename_i h1; subst h1
+      exact ⟨hu, by simp⟩
+    · rename_i h0 h1
+      rw [if_neg h0, if_neg h1] at hsize
+      refine ⟨⟨hu, ?_⟩, rfl⟩
+      simp only [Rope.len] at hsize
+      have hmax : maxBinarySize < usizeMax := by decide
+      by_cases hle : u.len * c ≤ usizeMax
+      · exact hle
+      · rw [Nat.min_eq_right (by omega)] at hsize; omega
+
 /-- What `update_program` and the allocation discipline establish: the canonical table is the one
 `compute_canonical_tuples` produces for the tuple table, and every heap rope stores its true length. -/
 def Ctx.Coherent (X : Ctx) : Prop :=
